@@ -12,6 +12,7 @@ import PM.Step
 import Proofs.StepToks
 import Proofs.Commute
 import Proofs.CommuteMarkup
+import Proofs.CommuteSuccess
 namespace PM.C17
 open PM
 
@@ -416,5 +417,47 @@ theorem commute_markup_markup_docs (S : Schema) (d da db dab dba : Node) (A B A'
   obtain ⟨ty4, a4, m4, k4, kba, e, rfl⟩ := apply_markup_root S _ dba A' pa1 pa2 hpa hba
   cases e
   exact docs_eq_of_toks _ _ _ _ _ _ _ rfl rfl e3 hn1 hn2
+
+/-! ### both rebased orders apply — replace steps (helper lemmas: Proofs/CommuteSuccess.lean, Proofs/Lvl.lean)
+
+General statement (false, see `commute_needs_guard` below and the open finding C17-parent-retyped):
+
+    commute_succeeds_replace_full : t1 < f2 → S.apply (.replace f1 t1 s1 b1) d = .ok da →
+        S.apply (.replace f2 t2 s2 b2) d = .ok db → the two rebased steps apply to `da` resp. `db`
+
+Proved under the decidable guard `insideLeft` (PM/CommuteGuard.lean): the left step happens entirely inside
+an element node `n` — its `replace_outer` descends into `n` — and the right step's range begins behind
+`n`, in a node both steps reach.  Then the left step rebuilds and re-validates nodes inside `n` only and
+keeps `n`'s markup, and the right step's replace never looks into `n`: the child list it validates has the
+same node types with either content of `n`.  No validity hypothesis and no schema guard are needed, and
+both orders yield the *same* document (no normal-form argument). -/
+
+/-- **two replace steps with separated ranges, the left one inside a node the right one does not touch:
+    neither rebased step is dropped, both orders apply, and they give the same document** -/
+theorem commute_succeeds_replace (S : Schema) (d da db : Node) (f1 t1 f2 t2 : Nat) (s1 s2 : Slice)
+    (b1 b2 : Bool) (hn : fnorm d.kids = true) (hsn1 : fnorm s1.content = true) (hsep : t1 < f2)
+    (ha : S.apply (.replace f1 t1 s1 b1) d = .ok da) (hb : S.apply (.replace f2 t2 s2 b2) d = .ok db)
+    (hg : insideLeft d.kids f1 t1 (depthAt d.kids f1 - s1.openStart) f2 t2
+      (depthAt d.kids f2 - s2.openStart) = true) :
+    ∃ a' b' dab, (Step.replace f2 t2 s2 b2).map (Step.replace f1 t1 s1 b1).getMap = some b' ∧
+      (Step.replace f1 t1 s1 b1).map (Step.replace f2 t2 s2 b2).getMap = some a' ∧
+      S.apply b' da = .ok dab ∧ S.apply a' db = .ok dab := by
+  have ka := apply_replace_fromReplace S d da f1 t1 s1 b1 ha
+  have kb := apply_replace_fromReplace S d db f2 t2 s2 b2 hb
+  obtain ⟨ty, a, m, K, Ka, rfl, rfl, hr1⟩ := fromReplace_elem S d da f1 t1 s1 ka
+  obtain ⟨ty', a', m', K', Kb, he, rfl, hr2⟩ := fromReplace_elem S _ db f2 t2 s2 kb
+  cases he
+  simp only [Node.kids] at hn hg
+  obtain ⟨h1, _, hwf1⟩ := replaceKids_guards S ty K f1 t1 s1 Ka hr1
+  obtain ⟨h2, _, _⟩ := replaceKids_guards S ty K f2 t2 s2 Kb hr2
+  obtain ⟨hlen1, hs1⟩ := Slice.toks_length_of_wf_ex s1 hwf1
+  obtain ⟨r1, r2⟩ := rebase_separated_after f1 t1 f2 t2 s1 s2 b1 b2 h1 h2 hsep hs1
+  obtain ⟨Kab, c1, c2⟩ := replaceKids_commute_left S ty K Ka Kb f1 t1 f2 t2 s1 s2 hn hsn1 hsep hr1 hr2 hg
+  have n1 : ((f2 : Int) + s1.size - (t1 - f1)).toNat = f2 - (t1 - f1) + s1.toks.length := by omega
+  have n2 : ((t2 : Int) + s1.size - (t1 - f1)).toNat = t2 - (t1 - f1) + s1.toks.length := by omega
+  refine ⟨_, _, Node.elem ty a m Kab, r1, r2, ?_, ?_⟩
+  · rw [n1, n2]
+    simp [Schema.apply, Schema.fromReplace, Schema.replace, c1, Except.map]
+  · simp [Schema.apply, Schema.fromReplace, Schema.replace, c2, Except.map]
 
 end PM.C17
